@@ -343,7 +343,7 @@ func (g *gen) inject(pos token.Pos, name string, sig *types.Signature, set *Prov
 	ec := new(errorCollector)
 	for i := range calls {
 		c := &calls[i]
-		ec.add(injectorCallErrors(g.pkg.Fset, pos, name, injectSig, c, g.pkg.PkgPath)...)
+		ec.add(injectorCallErrors(g.pkg.Fset, pos, name, injectSig, c, g.pkg.Types)...)
 		if c.kind == valueExpr {
 			if g.values[c.valueExpr] == "" {
 				t := c.valueTypeInfo.TypeOf(c.valueExpr)
@@ -389,7 +389,8 @@ func (g *gen) inject(pos token.Pos, name string, sig *types.Signature, set *Prov
 // injector called name, declared at pos in package pkgPath with result
 // signature injectSig. It is shared by code generation and by Load, so that
 // "wire check" rejects what "wire gen" rejects.
-func injectorCallErrors(fset *token.FileSet, pos token.Pos, name string, injectSig outputSignature, c *call, pkgPath string) []error {
+func injectorCallErrors(fset *token.FileSet, pos token.Pos, name string, injectSig outputSignature, c *call, pkg *types.Package) []error {
+	pkgPath := pkg.Path()
 	var errs []error
 	if c.hasCleanup && !injectSig.cleanup {
 		ts := types.TypeString(c.out, nil)
@@ -404,7 +405,7 @@ func injectorCallErrors(fset *token.FileSet, pos token.Pos, name string, injectS
 			fmt.Errorf("inject %s: provider for %s returns error but injection not allowed to fail", name, ts)))
 	}
 	if c.kind == valueExpr {
-		if err := accessibleFrom(c.valueTypeInfo, c.valueExpr, pkgPath); err != nil {
+		if err := accessibleFrom(c.valueTypeInfo, c.valueExpr, pkg); err != nil {
 			// TODO(light): Display line number of value expression.
 			ts := types.TypeString(c.out, nil)
 			errs = append(errs, notePosition(
@@ -991,7 +992,8 @@ func disambiguate(name string, collides func(string) bool) string {
 
 // accessibleFrom reports whether node can be copied to wantPkg without
 // violating Go visibility rules.
-func accessibleFrom(info *types.Info, node ast.Node, wantPkg string) error {
+func accessibleFrom(info *types.Info, node ast.Node, want *types.Package) error {
+	wantPkg := want.Path()
 	var unexportError error
 	ast.Inspect(node, func(node ast.Node) bool {
 		if unexportError != nil {
@@ -1010,6 +1012,13 @@ func accessibleFrom(info *types.Info, node ast.Node, wantPkg string) error {
 		if _, ok := obj.(*types.PkgName); ok {
 			// Local package names are fine, since we can just reimport them.
 			return true
+		}
+		if obj.Pkg() == nil && obj.Parent() == types.Universe && want.Scope().Lookup(ident.Name) != nil {
+			// A predeclared identifier (true, nil, int8, ...) is copied as it
+			// is; in a package that declares that name it would mean
+			// something else.
+			unexportError = fmt.Errorf("uses predeclared identifier %s, which package %s redeclares", ident.Name, want.Name())
+			return false
 		}
 		if pkg := obj.Pkg(); pkg != nil {
 			if !ast.IsExported(ident.Name) && pkg.Path() != wantPkg {
